@@ -3,5 +3,6 @@ CONSTANTS
   Ns = {0, 1, 3}
   MaxCalls = 3
   Totals = {0, 4}
+  Provs = {0, 2}
 INVARIANTS Transparent Accounted NeverOver AllSamples EmitCase
 CHECK_DEADLOCK FALSE
